@@ -13,10 +13,13 @@
 package main
 
 import (
+	"bytes"
 	"context"
 	"fmt"
+	"io"
 	"math"
 	"os"
+	"reflect"
 	"path/filepath"
 	"sort"
 	"strconv"
@@ -24,6 +27,7 @@ import (
 	"sync"
 	"sync/atomic"
 	"time"
+	"unsafe"
 
 	"github.com/blugelabs/bluge"
 	"github.com/blugelabs/bluge/index"
@@ -40,7 +44,7 @@ import (
 type h struct{}
 
 func (h) Rule() string {
-	return "a case = a generated corpus (0..25 documents over a vocabulary of 3..8 words, optional text/keyword/numeric fields, all stored) + 10..14 queries (term, keyword term, match-all/none, prefix, safe numeric ranges, phrase, match and/or, booleans with must/should/mustNot/minShould nested up to depth 2) + 3 sort orders; each recipe line builds the corpus one way (batch partition, merges forced/off, memory/FS, reopen, backup, offline writer, segment version, optimisation switches, score mode, k indexes under MultiSearch, pending deletions) and prints the digest of all answers (read from a view of the index that does not recycle term field readers; the recycling reader is probed with three rounds of the same requests); an `opt` case builds explicit segments and runs the unadorned/push-down rewrites on chosen term tuples. A recipe evaluation is non-trivial when the corpus is non-empty or the recipe is the offline writer, distinct by (case, recipe line)"
+	return "a case = a generated corpus (0..25 documents over a vocabulary of 3..8 words, optional text/keyword/numeric fields, all stored) + 10..14 queries (term, keyword term, match-all/none, prefix, safe numeric ranges, phrase, match and/or, booleans with must/should/mustNot/minShould nested up to depth 2) + 3 sort orders; each recipe line builds the corpus one way (batch partition, merges forced/off, memory/FS, reopen, backup — complete, cut short at a chosen Persist by a write error or by cancellation and then run again, or with the cancel channel closed beforehand —, offline writer, segment version, optimisation switches, score mode, k indexes under MultiSearch, pending deletions) and prints the digest of all answers (read from a view of the index that does not recycle term field readers; the recycling reader is probed with three rounds of the same requests); an `opt` case builds explicit segments and runs the unadorned/push-down rewrites on chosen term tuples. A recipe evaluation is non-trivial when the corpus is non-empty or the recipe is the offline writer, distinct by (case, recipe line)"
 }
 
 // ---------------------------------------------------------------- corpus
@@ -633,25 +637,93 @@ func buildStandard(cs *caseState, p map[string]string, work string) (*built, str
 	}, closeW}
 	if p["backup"] == "1" {
 		bdir := newDir(work, "bk")
-		if err := rd.Backup(bdir, nil); err != nil {
+		fail := func(code string) (*built, string) {
 			for _, c := range closers {
 				c()
 			}
-			return nil, "err:backup"
+			_ = os.RemoveAll(bdir)
+			return nil, code
 		}
 		bcfg := tuneConfig(bluge.DefaultConfig(bdir), p)
-		rd2, err := bluge.OpenReader(bcfg)
-		if err != nil {
-			for _, c := range closers {
-				c()
+		if p["bkfail"] != "" || p["bkcancel"] == "1" {
+			// a backup that is cut short: which Persist fails is chosen here (bkfail, through the index-level API and a
+			// Directory that wraps the real FileSystemDirectory of the target) or left to the real code (bkcancel: the
+			// cancel channel of bluge.Reader.Backup is closed before the call). What the target then holds, whether a
+			// reader can open it, and the backup run again into the same directory are printed as `bk=…`; the inputs
+			// the model needs (mode, failing step, epoch, segment ids) go to the op line as `bkin=…`.
+			snap := snapOf(rd)
+			var ids []string
+			for _, sg := range snap.Segments() {
+				ids = append(ids, strconv.FormatUint(sg.ID(), 10))
 			}
-			return nil, "err:open-backup"
+			n := len(ids)
+			mode, kstr := "cancel", "-"
+			var berr error
+			if p["bkfail"] != "" {
+				k, _ := strconv.Atoi(p["bkfail"])
+				k %= n + 1
+				mode = p["bkmode"]
+				if mode != "c" {
+					mode = "w"
+				}
+				fd := &faultDir{Directory: index.NewFileSystemDirectory(bdir), failAt: k, mode: mode, cancel: make(chan struct{})}
+				berr = snap.Backup(fd, fd.cancel)
+				kstr = strconv.Itoa(k)
+			} else {
+				cancel := make(chan struct{})
+				close(cancel)
+				berr = rd.Backup(bdir, cancel)
+				if berr != nil {
+					// the persists run in order and a failed one removes its file: the failing step = the segment files present
+					segs, _, _ := listDir(bdir)
+					kstr = strconv.Itoa(len(segs))
+				}
+			}
+			segs, snps, oth := listDir(bdir)
+			ret := "nil"
+			if berr != nil {
+				ret = "err"
+			}
+			open1 := "err"
+			rd2, err := bluge.OpenReader(bcfg)
+			if err == nil {
+				open1 = "ok"
+			}
+			bt.phys += fmt.Sprintf(" bkin=%s:%s:%d:%s", mode, kstr, snap.VerifEpoch(), joinOrDash(ids, "+"))
+			bt.prefix = fmt.Sprintf("bk=ret:%s;seg:%s;snp:%s;oth:%d;open:%s", ret, joinOrDash(segs, "+"), joinOrDash(snps, "+"), oth, open1)
+			if berr != nil && err != nil {
+				// run it again, through the public API, into what the failed one left behind
+				if err := rd.Backup(bdir, nil); err != nil {
+					return fail("err:backup-again")
+				}
+				rd2, err = bluge.OpenReader(bcfg)
+				if err != nil {
+					return fail("err:open-backup-again")
+				}
+				bt.prefix += ";redo:ok"
+			} else {
+				// either the backup completed, or a failed backup left something a reader opens: the digest below is
+				// taken from exactly that reader (openable must mean equal)
+				bt.prefix += ";redo:-"
+				if err != nil {
+					return fail("err:open-backup")
+				}
+			}
+			rd = rd2
+			closers = append([]func(){func() { _ = rd2.Close() }}, closers...)
+			closers = append(closers, func() { _ = os.RemoveAll(bdir) })
+		} else {
+			if err := rd.Backup(bdir, nil); err != nil {
+				return fail("err:backup")
+			}
+			rd2, err := bluge.OpenReader(bcfg)
+			if err != nil {
+				return fail("err:open-backup")
+			}
+			rd = rd2
+			closers = append([]func(){func() { _ = rd2.Close() }}, closers...)
+			closers = append(closers, func() { _ = os.RemoveAll(bdir) })
 		}
-		rdOrig := rd
-		rd = rd2
-		closers = append([]func(){func() { _ = rd2.Close() }}, closers...)
-		_ = rdOrig
-		closers = append(closers, func() { _ = os.RemoveAll(bdir) })
 	}
 	if dir != "" {
 		closers = append(closers, func() { _ = os.RemoveAll(dir) })
@@ -672,6 +744,95 @@ func buildStandard(cs *caseState, p map[string]string, work string) (*built, str
 		rec.reset(false)
 	}
 	return bt, ""
+}
+
+// ---------------------------------------------------------------- partial backups
+
+// snapOf: the index.Snapshot behind a bluge.Reader (unexported field `reader`)
+func snapOf(rd *bluge.Reader) *index.Snapshot {
+	f := reflect.ValueOf(rd).Elem().FieldByName("reader")
+	return reflect.NewAt(f.Type(), unsafe.Pointer(f.UnsafeAddr())).Elem().Interface().(*index.Snapshot)
+}
+
+// faultDir hands every Persist to the real directory; the failAt-th one (0-based) gets a WriterTo that stops half way:
+// mode "w" = the write fails (disk full, I/O error), mode "c" = the cancel channel is closed and the WriterTo — unlike
+// ice's Segment.WriteTo and Snapshot.WriteTo, which ignore it — honours it. The real FileSystemDirectory.Persist then
+// runs its own cleanup.
+type faultDir struct {
+	index.Directory
+	failAt int
+	mode   string
+	cancel chan struct{}
+	n      int
+}
+
+func (d *faultDir) Persist(kind string, id uint64, w index.WriterTo, closeCh chan struct{}) error {
+	i := d.n
+	d.n++
+	if i == d.failAt {
+		if d.mode == "c" {
+			close(d.cancel)
+		}
+		return d.Directory.Persist(kind, id, &failingWriterTo{inner: w, mode: d.mode}, closeCh)
+	}
+	return d.Directory.Persist(kind, id, w, closeCh)
+}
+
+type failingWriterTo struct {
+	inner index.WriterTo
+	mode  string
+}
+
+func (f *failingWriterTo) WriteTo(w io.Writer, closeCh chan struct{}) (int64, error) {
+	var buf bytes.Buffer
+	if _, err := f.inner.WriteTo(&buf, nil); err != nil {
+		return 0, err
+	}
+	n, _ := w.Write(buf.Bytes()[:buf.Len()/2])
+	if f.mode == "c" {
+		select {
+		case <-closeCh:
+			return int64(n), fmt.Errorf("cancelled")
+		default:
+			return int64(n), fmt.Errorf("the cancel channel handed to Persist is not the one that was closed")
+		}
+	}
+	return int64(n), fmt.Errorf("injected: write interrupted")
+}
+
+// listDir: the segment ids, snapshot epochs (decimal, ascending) and the number of other files (lock / pid files
+// excluded) of an index directory
+func listDir(dir string) (segs, snps []string, other int) {
+	ents, _ := os.ReadDir(dir)
+	var a, b []uint64
+	for _, e := range ents {
+		n := e.Name()
+		switch {
+		case strings.HasSuffix(n, ".seg") || strings.HasSuffix(n, ".snp"):
+			id, err := strconv.ParseUint(n[:len(n)-4], 16, 64)
+			if err != nil {
+				other++
+				continue
+			}
+			if strings.HasSuffix(n, ".seg") {
+				a = append(a, id)
+			} else {
+				b = append(b, id)
+			}
+		case strings.HasSuffix(n, ".pid") || strings.HasSuffix(n, ".lock"):
+		default:
+			other++
+		}
+	}
+	sort.Slice(a, func(i, j int) bool { return a[i] < a[j] })
+	sort.Slice(b, func(i, j int) bool { return b[i] < b[j] })
+	for _, x := range a {
+		segs = append(segs, strconv.FormatUint(x, 10))
+	}
+	for _, x := range b {
+		snps = append(snps, strconv.FormatUint(x, 10))
+	}
+	return
 }
 
 // buildTailMerge reaches the root [P, M]: P = the first batch's segment, NOT merged, with one pending
@@ -1581,6 +1742,10 @@ func recipeKind(p map[string]string) string {
 		return "multisearch"
 	case p["tailmerge"] == "1":
 		return "tail-merge"
+	case p["backup"] == "1" && p["bkfail"] != "":
+		return "backup-partial"
+	case p["backup"] == "1" && p["bkcancel"] == "1":
+		return "backup-cancel"
 	case p["backup"] == "1":
 		return "backup"
 	case p["reopen"] == "1":
